@@ -361,6 +361,21 @@ Proof.
   intros H; inversion H. exists a, p, a'. auto.
 Qed.
 
+Lemma with_supply_Some s d f s1 : with_supply s d f = Some s1 ->
+  exists a a', get d (st_assets s) = Some a /\ f no_param a = Some a'
+    /\ s1 = mkSt (st_params s) (st_contracts s) (st_queue s) (st_bank s) (st_supply s)
+                 (set d a' (st_assets s)) (st_prev s) (st_height s) (st_time s) (st_log s) (st_win s).
+Proof.
+  unfold with_supply. destruct (get d (st_assets s)) as [a|]; [|discriminate].
+  destruct (f no_param a) as [a'|] eqn:Hf; [|discriminate].
+  intros H; inversion H. exists a, a'. auto.
+Qed.
+
+Lemma with_supply_ok s d f a a' : get d (st_assets s) = Some a -> f no_param a = Some a' ->
+  with_supply s d f = Some (mkSt (st_params s) (st_contracts s) (st_queue s) (st_bank s) (st_supply s)
+                                (set d a' (st_assets s)) (st_prev s) (st_height s) (st_time s) (st_log s) (st_win s)).
+Proof. intros Ha Hf. unfold with_supply. rewrite Ha, Hf. reflexivity. Qed.
+
 Lemma inv_lim s d p a : Inv s -> get_param (st_params s) d = Some p -> get d (st_assets s) = Some a -> lim_ok p a.
 Proof.
   intros I Hp Ha. destruct (inv_asset _ I d p Hp) as (a0 & Ha0 & _ & _ & _ & _ & Hl & _).
@@ -557,9 +572,9 @@ Proof.
     destruct (c_dir c) eqn:Hd; [congruence| |].
     + (* incoming: decrement incoming, increment current, mint, pay the recipient *)
       cbn in Gin.
-      assert (F1 : dec_incoming x p a = Some (mkAS (as_in a - x) (as_out a) (as_cur a) (as_tlc a) (as_el a))).
+      assert (F1 : dec_incoming x no_param a = Some (mkAS (as_in a - x) (as_out a) (as_cur a) (as_tlc a) (as_el a))).
       { unfold dec_incoming. replace (as_in a - x <? 0) with false by (symmetry; apply Z.ltb_ge; lia). reflexivity. }
-      rewrite (with_asset_ok _ _ _ _ _ _ Ha Hp F1).
+      rewrite (with_supply_ok _ _ _ _ _ Ha F1).
       set (a1 := mkAS (as_in a - x) (as_out a) (as_cur a) (as_tlc a) (as_el a)).
       set (a2 := mkAS (as_in a - x) (as_out a) (as_cur a + x) (if ap_tl p then as_tlc a + x else as_tlc a) (as_el a)).
       assert (F2 : inc_current x p a1 = Some a2).
@@ -599,16 +614,16 @@ Proof.
       * unfold close_events, is_in. rewrite Htr, Hd, Ham. reflexivity.
     + (* outgoing: decrement outgoing and current, burn *)
       cbn in Gout, Gesc.
-      assert (F1 : dec_outgoing x p a = Some (mkAS (as_in a) (as_out a - x) (as_cur a) (as_tlc a) (as_el a))).
+      assert (F1 : dec_outgoing x no_param a = Some (mkAS (as_in a) (as_out a - x) (as_cur a) (as_tlc a) (as_el a))).
       { unfold dec_outgoing. replace (as_out a - x <? 0) with false by (symmetry; apply Z.ltb_ge; lia). reflexivity. }
-      rewrite (with_asset_ok _ _ _ _ _ _ Ha Hp F1).
+      rewrite (with_supply_ok _ _ _ _ _ Ha F1).
       set (a1 := mkAS (as_in a) (as_out a - x) (as_cur a) (as_tlc a) (as_el a)).
       set (a2 := mkAS (as_in a) (as_out a - x) (as_cur a - x) (as_tlc a) (as_el a)).
-      assert (F2 : dec_current x p a1 = Some a2).
+      assert (F2 : dec_current x no_param a1 = Some a2).
       { unfold dec_current, a1, a2. cbn.
         replace (as_cur a - x <? 0) with false by (symmetry; apply Z.ltb_ge; lia). reflexivity. }
-      match goal with |- context [with_asset ?s1 d (dec_current x)] =>
-        rewrite (with_asset_ok s1 d (dec_current x) a1 p a2 (get_set_same _ _ _) Hp F2) end.
+      match goal with |- context [with_supply ?s1 d (dec_current x)] =>
+        rewrite (with_supply_ok s1 d (dec_current x) a1 a2 (get_set_same _ _ _) F2) end.
       unfold burn, set_bank_log. sproj. cbn [debit_coins]. unfold debit.
       replace ((0 <=? x) && (x <=? bal (st_bank s) ESC d)) with true
         by (symmetry; apply andb_true_iff; split; apply Z.leb_le; lia).
@@ -668,9 +683,9 @@ Proof.
     rewrite Ham.
     destruct (c_dir c) eqn:Hd; [congruence| |].
     + cbn in Gin.
-      assert (F1 : dec_incoming x p a = Some (mkAS (as_in a - x) (as_out a) (as_cur a) (as_tlc a) (as_el a))).
+      assert (F1 : dec_incoming x no_param a = Some (mkAS (as_in a - x) (as_out a) (as_cur a) (as_tlc a) (as_el a))).
       { unfold dec_incoming. replace (as_in a - x <? 0) with false by (symmetry; apply Z.ltb_ge; lia). reflexivity. }
-      rewrite (with_asset_ok _ _ _ _ _ _ Ha Hp F1).
+      rewrite (with_supply_ok _ _ _ _ _ Ha F1).
       unfold dequeue, set_contract. constructor; sproj; try reflexivity; try assumption; try discriminate.
       * intros d0. unfold w_esc, locksb, is_out. rewrite Htr, Hd. cbn. rewrite andb_false_r. lia.
       * intros d0 p0 a0 Hp0 Ha0. rewrite !get_set.
@@ -686,9 +701,9 @@ Proof.
            split; [exact (inv_lim _ _ _ _ I Hp0 Ha0)|]. intros; lia.
       * unfold close_events, locksb, is_out. rewrite Htr, Hd. cbn. reflexivity.
     + cbn in Gout, Gesc.
-      assert (F1 : dec_outgoing x p a = Some (mkAS (as_in a) (as_out a - x) (as_cur a) (as_tlc a) (as_el a))).
+      assert (F1 : dec_outgoing x no_param a = Some (mkAS (as_in a) (as_out a - x) (as_cur a) (as_tlc a) (as_el a))).
       { unfold dec_outgoing. replace (as_out a - x <? 0) with false by (symmetry; apply Z.ltb_ge; lia). reflexivity. }
-      rewrite (with_asset_ok _ _ _ _ _ _ Ha Hp F1).
+      rewrite (with_supply_ok _ _ _ _ _ Ha F1).
       unfold pay_out. rewrite Hbl. sproj.
       destruct (send_coins_ok [(d, x)] (st_bank s) ESC (c_sender c) Hne) as [l' Hsend].
       { rewrite <- Ham. exact Hpos. }
@@ -769,10 +784,10 @@ Proof.
     { unfold s1, dequeue, refund. cbv zeta. sproj.
       destruct (c_transfer c).
       - destruct (c_amount c) as [|[d x] cs]; [split; reflexivity|]. destruct (c_dir c); [split; reflexivity| |].
-        + destruct (with_asset s d (dec_incoming x)) as [s2|] eqn:Hw; [|split; reflexivity].
-          destruct (with_asset_Some _ _ _ _ Hw) as (? & ? & ? & _ & _ & _ & ->). split; reflexivity.
-        + destruct (with_asset s d (dec_outgoing x)) as [s2|] eqn:Hw; [|split; reflexivity].
-          destruct (with_asset_Some _ _ _ _ Hw) as (? & ? & ? & _ & _ & _ & ->).
+        + destruct (with_supply s d (dec_incoming x)) as [s2|] eqn:Hw; [|split; reflexivity].
+          destruct (with_supply_Some _ _ _ _ Hw) as (? & ? & _ & _ & ->). split; reflexivity.
+        + destruct (with_supply s d (dec_outgoing x)) as [s2|] eqn:Hw; [|split; reflexivity].
+          destruct (with_supply_Some _ _ _ _ Hw) as (? & ? & _ & _ & ->).
           unfold pay_out. destruct (blocked (c_sender c)); [split; reflexivity|]. sproj.
           destruct (send_coins _ _ _ _); split; reflexivity.
       - unfold pay_out. destruct (blocked (c_sender c)); [split; reflexivity|].
@@ -1290,6 +1305,9 @@ Qed.
 Lemma with_asset_Acc s d f s' : with_asset s d f = Some s' -> Acc s s'.
 Proof. intros H. destruct (with_asset_Some _ _ _ _ H) as (? & ? & ? & _ & _ & _ & ->). apply Acc_same; reflexivity. Qed.
 
+Lemma with_supply_Acc s d f s' : with_supply s d f = Some s' -> Acc s s'.
+Proof. intros H. destruct (with_supply_Some _ _ _ _ H) as (? & ? & _ & _ & ->). apply Acc_same; reflexivity. Qed.
+
 Lemma create_Acc s m s' : create s m = Some s' -> Acc s s'.
 Proof.
   unfold create. destruct (negb (create_basic m)); [discriminate|]. destruct (blocked (m_to m)); [discriminate|].
@@ -1307,17 +1325,17 @@ Qed.
 Lemma claim_htlt_Acc s id c s' : claim_htlt s id c = Some s' -> Acc s s'.
 Proof.
   unfold claim_htlt. destruct (c_amount c) as [|[d x] cs]; [discriminate|]. destruct (c_dir c); [discriminate| |].
-  - destruct (with_asset s d (dec_incoming x)) as [s1|] eqn:H1; [|discriminate].
+  - destruct (with_supply s d (dec_incoming x)) as [s1|] eqn:H1; [|discriminate].
     destruct (with_asset s1 d (inc_current x)) as [s2|] eqn:H2; [|discriminate]. intros H3.
-    apply (Acc_trans _ s1); [exact (with_asset_Acc _ _ _ _ H1)|].
+    apply (Acc_trans _ s1); [exact (with_supply_Acc _ _ _ _ H1)|].
     apply (Acc_trans _ s2); [exact (with_asset_Acc _ _ _ _ H2)|].
     apply (Acc_trans _ (mint s2 id ((d, x) :: cs))); [apply mint_Acc|].
     apply (Acc_trans _ (add_win (mint s2 id ((d, x) :: cs)) d x)); [apply Acc_same; reflexivity|].
     exact (pay_out_Acc _ _ _ _ _ H3).
-  - destruct (with_asset s d (dec_outgoing x)) as [s1|] eqn:H1; [|discriminate].
-    destruct (with_asset s1 d (dec_current x)) as [s2|] eqn:H2; [|discriminate]. intros H3.
-    apply (Acc_trans _ s1); [exact (with_asset_Acc _ _ _ _ H1)|].
-    apply (Acc_trans _ s2); [exact (with_asset_Acc _ _ _ _ H2)|]. exact (burn_Acc _ _ _ _ H3).
+  - destruct (with_supply s d (dec_outgoing x)) as [s1|] eqn:H1; [|discriminate].
+    destruct (with_supply s1 d (dec_current x)) as [s2|] eqn:H2; [|discriminate]. intros H3.
+    apply (Acc_trans _ s1); [exact (with_supply_Acc _ _ _ _ H1)|].
+    apply (Acc_trans _ s2); [exact (with_supply_Acc _ _ _ _ H2)|]. exact (burn_Acc _ _ _ _ H3).
 Qed.
 
 Lemma claim_Acc s who id secret s' : claim s who id secret = Some s' -> Acc s s'.
@@ -1334,10 +1352,10 @@ Lemma refund_Acc s id c : Acc s (refund s id c).
 Proof.
   unfold refund. cbv zeta. destruct (c_transfer c).
   - destruct (c_amount c) as [|[d x] cs]; [apply Acc_refl|]. destruct (c_dir c); [apply Acc_refl| |].
-    + destruct (with_asset s d (dec_incoming x)) as [s1|] eqn:H1; [|apply Acc_refl].
-      apply (Acc_trans _ s1); [exact (with_asset_Acc _ _ _ _ H1)|apply Acc_same; reflexivity].
-    + destruct (with_asset s d (dec_outgoing x)) as [s1|] eqn:H1; [|apply Acc_refl].
-      apply (Acc_trans _ s1); [exact (with_asset_Acc _ _ _ _ H1)|].
+    + destruct (with_supply s d (dec_incoming x)) as [s1|] eqn:H1; [|apply Acc_refl].
+      apply (Acc_trans _ s1); [exact (with_supply_Acc _ _ _ _ H1)|apply Acc_same; reflexivity].
+    + destruct (with_supply s d (dec_outgoing x)) as [s1|] eqn:H1; [|apply Acc_refl].
+      apply (Acc_trans _ s1); [exact (with_supply_Acc _ _ _ _ H1)|].
       destruct (pay_out s1 id (c_sender c) ((d, x) :: cs)) as [s2|] eqn:H2; [|apply Acc_refl].
       apply (Acc_trans _ s2); [exact (pay_out_Acc _ _ _ _ _ H2)|apply Acc_same; reflexivity].
   - destruct (pay_out s id (c_sender c) (c_amount c)) as [s1|] eqn:H1; [|apply Acc_refl].
@@ -1425,17 +1443,17 @@ Lemma claim_htlt_win s id c s' d x cs : c_amount c = (d, x) :: cs -> claim_htlt 
   st_win s' = match c_dir c with Incoming => set d (sup_of (st_win s) d + x) (st_win s) | _ => st_win s end.
 Proof.
   intros Ham. unfold claim_htlt. rewrite Ham. destruct (c_dir c); [discriminate| |].
-  - destruct (with_asset s d (dec_incoming x)) as [s1|] eqn:H1; [|discriminate].
-    destruct (with_asset_Some _ _ _ _ H1) as (? & ? & ? & _ & _ & _ & ->).
+  - destruct (with_supply s d (dec_incoming x)) as [s1|] eqn:H1; [|discriminate].
+    destruct (with_supply_Some _ _ _ _ H1) as (? & ? & _ & _ & ->).
     match goal with |- context [with_asset ?t d (inc_current x)] => destruct (with_asset t d (inc_current x)) as [s2|] eqn:H2; [|discriminate] end.
     destruct (with_asset_Some _ _ _ _ H2) as (? & ? & ? & _ & _ & _ & ->).
     unfold pay_out. destruct (blocked (c_to c)); [discriminate|]. sproj.
     match goal with |- context [send_coins ?l ESC (c_to c) ?cs] => destruct (send_coins l ESC (c_to c) cs); [|discriminate] end.
     intros H; inversion H; subst s'. reflexivity.
-  - destruct (with_asset s d (dec_outgoing x)) as [s1|] eqn:H1; [|discriminate].
-    destruct (with_asset_Some _ _ _ _ H1) as (? & ? & ? & _ & _ & _ & ->).
-    match goal with |- context [with_asset ?t d (dec_current x)] => destruct (with_asset t d (dec_current x)) as [s2|] eqn:H2; [|discriminate] end.
-    destruct (with_asset_Some _ _ _ _ H2) as (? & ? & ? & _ & _ & _ & ->).
+  - destruct (with_supply s d (dec_outgoing x)) as [s1|] eqn:H1; [|discriminate].
+    destruct (with_supply_Some _ _ _ _ H1) as (? & ? & _ & _ & ->).
+    match goal with |- context [with_supply ?t d (dec_current x)] => destruct (with_supply t d (dec_current x)) as [s2|] eqn:H2; [|discriminate] end.
+    destruct (with_supply_Some _ _ _ _ H2) as (? & ? & _ & _ & ->).
     unfold burn. sproj.
     match goal with |- context [debit_coins ?l ESC ?cs] => destruct (debit_coins l ESC cs); [|discriminate] end.
     intros H; inversion H; subst s'. reflexivity.
